@@ -14,6 +14,16 @@ CHECKS = {
     technique="TLA+ vocabulary/printer (P0fVocab.tla) and loader state machine (DbLoad.tla) explored by TLC; vectors replayed into Display/FromStr/Database::from_str; bundled p0f.fp validated as a trace of DbLoad (TV_C06)",
     text="TLC enumerates signature values over the p0f vocabulary with their canonical text (checking that printing is injective) and every database text of bounded length as a behaviour of the loader model with the structure it must yield or its rejection; the real Display/FromStr/Database::from_str are held to those results, every bundled signature line must re-print to itself, and the bundled file as a whole is trace-validated against the loader model so that its 323 signatures, MTU groups, classes and ua rules must sit exactly where the file puts them.",
     note="Trusted: TLC, P0fVocab.Print* as the canonical text, the 40-line lexer that splits p0f.fp into key/value events, harness JSON<->struct conversion. Bounded vocabulary and line pool."),
+ "C12": dict(
+    level="model_checking", design="§5 C12",
+    technique="TLA+ distance definitions and laws (Match.tla) checked by TLC; exhaustive implementation tables (TTL/window/header/software/score over all 2^32 distances) validated entry by entry by TLC (TV_C12); TLC-generated instance/perturbation vectors replayed into calculate_distance",
+    text="The laws the property states (instance => 0 and quality 1.0, decisive difference => rejected, same-form difference => exactly the field's penalty, quality antitone within [0.05,1.0] and 1.0 only at 0) are written in Match.tla, checked by TLC on the reference definitions, and then every entry of lossless tables computed by the real distance functions over whole domains is judged by TLC against them; composite distances are checked on instances and 1-3-field perturbations of all 323 bundled and extra generated signatures.",
+    note="Trusted: TLC, the laws/penalty constants of Match.tla, the harness's table scan. Quick uses boundary subsets of the TTL/window domains, thorough the full 8-bit domains."),
+ "C02": dict(
+    level="model_checking", design="§5 C02",
+    technique="TLA+ model of index keys and best-match selection (Match.tla) model-checked by TLC (IndexTransparent); TLC-generated databases replayed through Database::from_str + find_best_match; recorded lookups trace-validated by TLC (TV_C02: reported = SelectBest(distances of all entries))",
+    text="TLC proves on the index model that candidate lookup equals a full scan for every database of up to three signatures over a vocabulary mixing wildcard and concrete IP version, payload class and HTTP version, and shows the model rejects the historical HTTP `*` defect; the same databases (as p0f text, three label groupings, all four tables) and the bundled database are then queried through the real code, which reports its own distance for every entry, and TLC checks for every lookup that the reported entry is the first one of minimal distance with that distance's quality, and that nothing is reported iff nothing accepts.",
+    note="Trusted: TLC, SelectBest in Match.tla, the implementation's calculate_distance as the scan oracle (judged separately by C12), pointer identity to locate the reported entry."),
 }
 
 NOT_YET = {}
